@@ -15,7 +15,10 @@ def HP(fn, what, gp, vec, known=None, mem=6, timeout=1200, tiers=('quick', 'thor
 B_PRO_A64 = ('dirty masks of x0-x30 and v0-v31 symbolic (all 2^32 values); local and call stack size 0..64 KiB in 8-byte words; local and call alignment 1..64; '
              'preserved FP, calls, varargs, BTI attributes; stack-argument base register SP or FP; entry SP symbolic and 16-byte aligned; entry values of all registers symbolic')
 def HA(fn, what, known=None, unwind=33, mem=6, timeout=1200, tiers=('quick', 'thorough')):
-    return Harness('prolog_a64', fn, unwind=unwind, bounds=what + '; ' + B_PRO_A64, known=known, mem_gb=mem, timeout=timeout, tiers=tiers)
+    A64P = '_ZN6asmjit5v1_213a6410EmitHelper11emit_prologERKNS0_9FuncFrameE'; A64E = '_ZN6asmjit5v1_213a6410EmitHelper11emit_epilogERKNS0_9FuncFrameE'; PEI = '_ZN6asmjit5v1_213a6416PrologEpilogInfo4initERKNS0_9FuncFrameE'
+    lib = unwind // 2 + 1   # library loops: at most 16 register pairs / 16 saved registers per group for the built-in conventions (light-call: 32)
+    us = ','.join('%s.%d:%d' % (f, i, lib) for f in (A64P, A64E) for i in range(4)) + ',%s.0:%d,%s.1:%d' % (PEI, lib, PEI, lib)
+    return Harness('prolog_a64', fn, unwind=unwind, unwindset=us, bounds=what + '; ' + B_PRO_A64, known=known, mem_gb=mem, timeout=timeout, tiers=tiers)
 B_FRAME = ('every convention id valid for the arch (real CallConv::init); dirty masks of all 4 groups: all 2^32 values each; local and call stack size 0..65536; '
            'local and call alignment 1,2,..,64; all user attributes (preserved FP, calls, AVX, AVX-512, cleanup flags, IBT, varargs); optional user-chosen '
            'stack-argument base register; optional red-zone reset; used-register masks and stack-argument size 0..65532 handed over by FuncDetail')
